@@ -10,7 +10,6 @@ import (
 	"os/exec"
 	"regexp"
 	"runtime"
-	"runtime/debug"
 	"strconv"
 	"strings"
 	"sync"
@@ -156,7 +155,6 @@ func caseHash(c Case) uint64 {
 func workerMain() {
 	runtime.MemProfileRate = 64 << 10
 	capAddressSpace(workerBudget)
-	debug.SetMemoryLimit(256 << 20)
 	crumb, _ := os.OpenFile(os.Getenv("C04_CRUMB"), os.O_WRONLY|os.O_CREATE, 0o644)
 	in := bufio.NewReaderSize(os.Stdin, 1<<20)
 	for {
